@@ -52,6 +52,7 @@ type UOpts struct {
 	NArtifact int
 	BareMT    bool // some OCI manifests and indexes omit the optional mediaType field of the body
 	MTSkew    bool // some index entries list a child under another (docker <-> OCI) media type than it was pushed with, or with another size
+	Foreign   bool // some layers carry a foreign / non-distributable layer media type
 	MTWild    bool // some index entries list a child manifest under a media type that is no manifest type at all
 	OddAT     bool // artifact types that contain + & = % #
 	Tags      []string
@@ -208,7 +209,12 @@ func GenUniverse(r *rand.Rand, o UOpts) *Universe {
 		var ls []Descriptorish
 		for k := r.Intn(3); k > 0; k-- {
 			b := blob()
-			ls = append(ls, Descriptorish{MTLayer, b.D, len(b.B)})
+			lmt := MTLayer
+			if o.Foreign && r.Intn(3) == 0 {
+				// layers of the "foreign" / non-distributable kinds: the registry stores them like any other layer
+				lmt = []string{"application/vnd.docker.image.rootfs.foreign.diff.tar.gzip", "application/vnd.oci.image.layer.nondistributable.v1.tar+gzip"}[r.Intn(2)]
+			}
+			ls = append(ls, Descriptorish{lmt, b.D, len(b.B)})
 		}
 		if o.Aliasing && len(images) > 0 && r.Intn(3) == 0 {
 			// a layer that is itself a manifest body (one digest, two roles)
